@@ -336,6 +336,17 @@ def checks(nworkers=14):
     outp = os.path.join(BASE, 'result.json')
     out = json.load(open(outp)) if os.path.exists(outp) else {}
     todo = [i for i in sv if i not in out]
+    skip = ('_ROComparison', '_ClassBoolFromEnv', '_TrackingC3', '_logger', '_warn_iro',
+            'InconsistentResolutionOrderError', '__create_class_doc', '__optional_methods_to_docs',
+            '__repr__', '__str__', '_str_', 'getDoc', 'asStructuredText')
+    keep = []
+    for i in todo:
+        m = json.load(open(os.path.join(BASE, 'mut', '%05d.json' % int(i))))
+        if m['file'].startswith('common/') or any(k in m['func'] for k in skip):
+            continue
+        keep.append(i)
+    print('survivors', len(sv), 'checked now', len(keep), flush=True)
+    todo = keep
     with ThreadPoolExecutor(nworkers) as ex:
         for n, (mid, viol, errs) in enumerate(ex.map(check_one, todo)):
             out[mid] = {'viol': viol, 'errs': errs}
